@@ -87,3 +87,137 @@ def c10_r4(ctx):
             for g in gl:
                 ctx.fail(key(fi, f"global {g}"), f"{fi.qualname} rebinds the module global `{g}`: state is carried between calls", fi.loc())
     ctx.ok(f"{len(repo.modules)} modules, {n_glob} module-level containers scanned for mutation from functions")
+
+
+MEMO_DECORATORS = {"lru_cache", "cache", "cached_property", "functools.lru_cache", "functools.cache", "functools.cached_property", "memoize", "memoized"}
+
+
+def _is_container_expr(e: ast.AST) -> bool:
+    """self.<attr> or a bare (module-level) name"""
+    return (isinstance(e, ast.Attribute) and isinstance(e.value, ast.Name) and e.value.id in ("self", "cls")) or isinstance(e, ast.Name)
+
+
+@rule("C10.R5", "results are not memoised under a key that is coarser than the inputs (no caches carrying results between calls)",
+      min_instances=1, also=STATE_PROPS)
+def c10_r5(ctx):
+    repo = ctx.repo
+    n = 0
+    for fi in repo.all_functions():
+        if fi.module.short.startswith("client_generators.dependencies"):
+            continue
+        n += 1
+        for d in fi.node.decorator_list:
+            name = dotted(d.func) if isinstance(d, ast.Call) else dotted(d)
+            if name in MEMO_DECORATORS or name.split(".")[-1] in MEMO_DECORATORS:
+                ctx.fail(key(fi, f"@{name}"), f"{fi.qualname} is memoised with @{name}: results are shared between calls whose arguments merely compare equal "
+                         "(True == 1 == 1.0, equal-named nodes ...) and survive from one generation step to the next", fi.loc(d))
+        params = [a.arg for a in fi.node.args.posonlyargs + fi.node.args.args + fi.node.args.kwonlyargs if a.arg not in ("self", "cls")]
+        local_bound = {t.id for t in ast.walk(fi.node) if isinstance(t, ast.Name) and isinstance(t.ctx, ast.Store)}
+        env = {}
+        for st in walk_no_nested(fi.node):
+            if isinstance(st, ast.Assign) and len(st.targets) == 1 and isinstance(st.targets[0], ast.Name):
+                env.setdefault(st.targets[0].id, st.value)
+        # stores C[k] = v
+        stores = {}
+        for st in walk_no_nested(fi.node):
+            tg = None
+            if isinstance(st, ast.Assign) and len(st.targets) == 1 and isinstance(st.targets[0], ast.Subscript):
+                tg = st.targets[0]
+            if tg is not None and _is_container_expr(tg.value):
+                c = norm(tg.value)
+                if isinstance(tg.value, ast.Name) and tg.value.id in local_bound:
+                    continue
+                stores.setdefault(c, []).append(tg.slice)
+        if not stores:
+            continue
+        # reads that are returned: `return C[k]`, `return C.get(k)`, or x = C.get(k)/C[k] ... return x under a hit test
+        for r in walk_no_nested(fi.node):
+            if not isinstance(r, ast.Return) or r.value is None:
+                continue
+            v = r.value
+            v = env.get(v.id, v) if isinstance(v, ast.Name) else v
+            cont = keyx = None
+            if isinstance(v, ast.Subscript) and _is_container_expr(v.value):
+                cont, keyx = norm(v.value), v.slice
+            elif isinstance(v, ast.Call) and isinstance(v.func, ast.Attribute) and v.func.attr in ("get", "setdefault") and _is_container_expr(v.func.value) and v.args:
+                cont, keyx = norm(v.func.value), v.args[0]
+            if cont is None or cont not in stores:
+                continue
+            # the value returned comes out of a container that this same function fills: memoisation
+            k = keyx
+            k = env.get(k.id, k) if isinstance(k, ast.Name) else k
+            bare = set()
+            for x in ast.walk(k):
+                if isinstance(x, ast.Name) and x.id in params:
+                    bare.add(x.id)
+            projected = any(isinstance(x, ast.Attribute) and isinstance(x.value, ast.Name) and x.value.id in params for x in ast.walk(k)) or \
+                any(isinstance(x, ast.Call) and isinstance(x.func, ast.Name) and x.func.id == "id" for x in ast.walk(k))
+            missing = [p for p in params if p not in bare]
+            if missing or projected:
+                ctx.fail(key(fi, f"memo {cont}[{norm(k)[:50]}]"),
+                         f"{fi.qualname} returns results remembered in {cont} under the key `{norm(k)[:80]}`, which "
+                         + (f"ignores the parameter(s) {missing}" if missing else "is a projection (attribute / id()) of its arguments")
+                         + ": two different inputs that share the key get the first one's result", fi.loc(r))
+            else:
+                ctx.ok(f"{fi.key}: memo in {cont} keyed by all parameters", fi.loc(r))
+    ctx.ok(f"{n} generator functions scanned for memoisation (decorators and fill-and-return containers)")
+
+
+@rule("C04.R9", "worklist traversals expand the node just taken from the worklist and re-visit what they add", min_instances=1,
+      also=["C01", "C02", "C05", "C08", "C09", "C15"])
+def c04_r9(ctx):
+    repo = ctx.repo
+    n = 0
+    for fi in repo.all_functions():
+        if fi.module.short.startswith("client_generators.dependencies"):
+            continue
+        params = {a.arg for a in fi.node.args.posonlyargs + fi.node.args.args + fi.node.args.kwonlyargs}
+        for w in walk_no_nested(fi.node):
+            # --- while W: X = W.pop() ... W.append/extend(<neighbours>)
+            if isinstance(w, ast.While) and isinstance(w.test, ast.Name):
+                W = w.test.id
+                popped = None
+                for st in ast.walk(w):
+                    if isinstance(st, ast.Assign) and isinstance(st.value, ast.Call) and isinstance(st.value.func, ast.Attribute) and st.value.func.attr in ("pop", "popleft") \
+                            and isinstance(st.value.func.value, ast.Name) and st.value.func.value.id == W and isinstance(st.targets[0], ast.Name):
+                        popped = st.targets[0].id
+                if popped is None:
+                    continue
+                n += 1
+                for c in ast.walk(w):
+                    if isinstance(c, ast.Call) and isinstance(c.func, ast.Attribute) and c.func.attr in ("append", "extend", "appendleft") and isinstance(c.func.value, ast.Name) and c.func.value.id == W and c.args:
+                        # where do the pushed nodes come from?  the innermost enclosing loop/comprehension, or the argument itself
+                        src = c.args[0]
+                        loopsrc = None
+                        for lp in ast.walk(w):
+                            if isinstance(lp, (ast.For,)) and any(x is c for x in ast.walk(lp)) and lp is not w:
+                                loopsrc = lp.iter
+                        names_src = {x.id for x in ast.walk(loopsrc if loopsrc is not None else src) if isinstance(x, ast.Name)}
+                        if isinstance(src, (ast.GeneratorExp, ast.ListComp)):
+                            names_src |= {x.id for g in src.generators for x in ast.walk(g.iter) if isinstance(x, ast.Name)}
+                        uses_popped = popped in names_src
+                        uses_root = bool((names_src & params) - {"self"}) and not uses_popped
+                        if uses_root:
+                            ctx.fail(key(fi, f"worklist {W}: neighbours"), f"the nodes pushed on `{W}` are computed from {sorted((names_src & params) - {'self'})} (the traversal's starting point) "
+                                     f"instead of from `{popped}`, the node just taken from the worklist: only the first level is ever expanded", fi.loc(c))
+                        else:
+                            ctx.ok(f"{fi.key}: worklist {W} expands the popped node", fi.loc(c))
+            # --- for x in <A>: ... L.extend(...)  where L = list(<A>) : items added to L are never visited
+            if isinstance(w, ast.For):
+                it = norm(w.iter)
+                for c in ast.walk(w):
+                    if isinstance(c, ast.Call) and isinstance(c.func, ast.Attribute) and c.func.attr in ("append", "extend") and isinstance(c.func.value, ast.Name):
+                        L = c.func.value.id
+                        init = None
+                        for st in walk_no_nested(fi.node):
+                            if isinstance(st, ast.Assign) and len(st.targets) == 1 and isinstance(st.targets[0], ast.Name) and st.targets[0].id == L:
+                                init = st.value
+                        if init is None or L == it:
+                            continue
+                        itxt = norm(init)
+                        base = it.replace(" or []", "").replace(" or ()", "")
+                        if base and base in itxt and itxt != base and any(isinstance(x, ast.Call) and isinstance(x.func, ast.Name) and x.func.id in ("list", "tuple") for x in [init]):
+                            n += 1
+                            ctx.fail(key(fi, f"growing list {L}"), f"`{L}` starts as a copy of `{base}` and is extended inside a loop that iterates `{it}` itself: what is added to `{L}` is never traversed "
+                                     "(only the first level of a transitive walk is expanded)", fi.loc(c))
+    ctx.ok(f"worklist discipline checked on {n} traversal loops")
